@@ -21,7 +21,14 @@ import (
 
 var verifOther = errors.New("verif: other error")
 
-func verifDerr(class int64) error {
+func verifDerr(class, code int64) error {
+	if class == breaker.VDShaped {
+		sent := breaker.VerifSentinel(code % 10)
+		if code%10 == breaker.VBRedisNil {
+			sent = red.Nil
+		}
+		return breaker.VerifShaped(code/10, sent)
+	}
 	if e := breaker.VerifWrapped(class); e != nil {
 		return e
 	}
@@ -105,7 +112,7 @@ func TestVerifC01W(t *testing.T) {
 			}
 			p.VerifForce(rej)
 			before := p.Sums()
-			derr := verifDerr(class)
+			derr := verifDerr(class, k[4])
 			var invoked int64
 			pv := &struct{ n int }{i}
 			down := func() error {
